@@ -784,6 +784,24 @@ func (b *BlockWise[C]) processReceivedMessage(w *responsewriter.ResponseWriter[C
 	}
 	if cachedReceivedMessageGuard == nil {
 		szx = getSzx(szx, maxSzx)
+		if blockType == message.Block2 && num > 0 {
+			// A block other than the first one of a response arrived but no transfer is in progress (it was
+			// completed, has expired, or this is a late duplicate). It is only what was asked for if the request
+			// itself named that block (random access, RFC 7959 2.4); otherwise it is a piece of a body whose head
+			// is missing. It must neither be handed over as a complete body nor start a new transfer: that would
+			// send the request again without its payload.
+			randomAccess := false
+			if reqBlock, errB := sentRequest.GetOptionUint32(message.Block2); errB == nil {
+				if reqSzx, reqNum, _, errD := DecodeBlockOption(reqBlock); errD == nil {
+					respSzx, _, _, _ := DecodeBlockOption(block)
+					// compare byte offsets: the peer may answer with a smaller block size
+					randomAccess = reqNum*reqSzx.Size() == num*respSzx.Size()
+				}
+			}
+			if !randomAccess {
+				return fmt.Errorf("block(%v) of the response body received without the preceding blocks", num)
+			}
+		}
 		// if there is no more then just forward req to next handler
 		if !more {
 			if blockType == message.Block1 && num > 0 {
@@ -791,21 +809,6 @@ func (b *BlockWise[C]) processReceivedMessage(w *responsewriter.ResponseWriter[C
 				// already completed, or never started): the preceding blocks are not available, so the
 				// body must not be handed over as if it were complete (RFC 7959 2.5: 4.08 Request Entity Incomplete).
 				return fmt.Errorf("final block(%v) of the request body received without the preceding blocks", num)
-			}
-			if blockType == message.Block2 && num > 0 {
-				// A lone final block of a response is only what was asked for if the request itself named that
-				// block (random access, RFC 7959 2.4); otherwise it is the tail of a body whose head is missing.
-				randomAccess := false
-				if reqBlock, errB := sentRequest.GetOptionUint32(message.Block2); errB == nil {
-					if reqSzx, reqNum, _, errD := DecodeBlockOption(reqBlock); errD == nil {
-						respSzx, _, _, _ := DecodeBlockOption(block)
-						// compare byte offsets: the peer may answer with a smaller block size
-						randomAccess = reqNum*reqSzx.Size() == num*respSzx.Size()
-					}
-				}
-				if !randomAccess {
-					return fmt.Errorf("final block(%v) of the response body received without the preceding blocks", num)
-				}
 			}
 			next(w, r)
 			return nil
